@@ -11,6 +11,10 @@ use parry2d_f64::na::Vector3;
 type T2Storage = Vector3<f64>;
 
 pub use points_to_curve::points_to_curve;
+#[cfg(feature = "verif")]
+pub use jacobian::point_surface_jacobian;
+#[cfg(feature = "verif")]
+pub use points_to_curve::verif_observe as verif_observe_points_to_curve;
 pub use rc_params2::RcParams2;
 
 /// Produces a 2D transformation from 3 parameters.
